@@ -104,8 +104,9 @@ void h_search_cache(void) {
 // is the first hit in (includer's directory for the "" form only, then the include path order);
 // include_file is cut to record the path.
 static char *included_path;
+static char *included_paths[3];
 static int include_calls;
-Token *stub_include_file(Token *tok, char *path, Token *filename_tok) { included_path = path; include_calls++; return tok; }
+Token *stub_include_file(Token *tok, char *path, Token *filename_tok) { included_path = path; if (include_calls < 3) included_paths[include_calls] = path; include_calls++; return tok; }
 bool stub_expand_macro(Token **rest, Token *tok) { return false; }
 
 static Token *first_tok, *last_tok;
@@ -145,4 +146,29 @@ static void run_include(bool dquote) {
   VCOVER();
 }
 void h_include_dquote(void) { run_include(true); }
+
+// The SAME spelling `#include "a"` in two files that live in different directories: each is resolved relative to
+// ITS includer first (dir0/in.c, then d1/x.c whose directory is also include directory 1), then along the include path.
+static File file2 = {.name = "d1/x.c", .display_name = "d1/x.c", .file_no = 2, .contents = ""};
+void h_include_dquote_two_includers(void) {
+  setup();
+  mk(TK_PUNCT, "#", 1, true, false); mk(TK_IDENT, "include", 7, false, false); mk(TK_STR, "\"a\"", 3, false, true);
+  Token *h2 = mk(TK_PUNCT, "#", 1, true, false);
+  Token *i2 = mk(TK_IDENT, "include", 7, false, false);
+  Token *s2 = mk(TK_STR, "\"a\"", 3, false, true);
+  h2->file = i2->file = s2->file = &file2;
+  mk(TK_EOF, "", 0, true, false);
+  Token *out = NULL;
+  expect_no_diag = 1;
+  TRY(out = preprocess2(first_tok));
+  if (verif_diag) return;
+  VASSERT(include_calls == 2, "two files are included");
+  int want = first_hit(0, 0);
+  if (IN.exists[NDIR][0]) VASSERT(path_is(included_paths[0], NDIR, 0), "first includer (dir0): its own directory first");
+  else if (want >= 0) VASSERT(path_is(included_paths[0], want, 0), "first includer: then the include path");
+  if (IN.exists[1][0]) VASSERT(path_is(included_paths[1], 1, 0), "second includer (d1/x.c): ITS directory first, whatever an earlier include of the same spelling resolved to");
+  else if (want >= 0) VASSERT(path_is(included_paths[1], want, 0), "second includer: then the include path");
+  else VASSERT(included_paths[1][0] == 'a' && included_paths[1][1] == 0, "not found: the bare name is passed on");
+  VCOVER();
+}
 void h_include_angle(void) { run_include(false); }
